@@ -96,4 +96,13 @@ PROPS = {
                 "own splice_info_section parser + MPEG-2 CRC-32",
         "assumptions": ["the carrier may contain the announce instant at either end of its interval"],
     },
+    "C06": {
+        "parts": [{"pkg": "livesim", "test": "TestVerifC06", "gen": True}],
+        "clauses": ["C06.a", "C06.b", "C06.c", "C06.d", "C06.e", "C06.accepted", "C06.rejected"],
+        "level": "model_checking",
+        "rule": "assets x MPDs x {Number, Timeline-Time, Timeline-Number}: every periods-per-hour value 1..3600 (quick: every 7th) for accept/reject + structure, continuity on/off; "
+                "for p in {1,2,4,30,60,120,450,1800} x tsbd {60,10}: walk over instants where period boundary, window edge and segment availability meet (+-1 ms); "
+                "oracle: differential against the single-period MPD at the same instant + byte equality of first/last segment per period",
+        "assumptions": ["start time and startNumber stay at their defaults (the property's quantifier)", "the must-reject clause is applied to assets with constant video segment duration"],
+    },
 }
